@@ -108,9 +108,14 @@ func VerifC15_Subset() {
 	// selectors: a subset of {[k1],[k2],[k1,k2]}
 	var sel [][]string
 	var hasSel [3]bool
+	repeatKey := false
 	longFirst := false // the two-key selector is listed before the one-key selector that is its sorted prefix
 	if verif.Tier() == 0 {
-		switch verif.Choose("selectors", 5) { // quick: {}, {[k1]}, {[k1,k2]}, {[k1],[k2]}, {[k1,k2],[k1]}
+		switch verif.Choose("selectors", 6) { // quick: {}, {[k1]}, {[k1,k2]}, {[k1],[k2]}, {[k1,k2],[k1]}, {[k2,k1,k2]}
+		case 5:
+			// a selector may name a key more than once (not next to each other): it is the same key set
+			hasSel[2] = true
+			repeatKey = true
 		case 1:
 			hasSel[0] = true
 		case 2:
@@ -124,9 +129,14 @@ func VerifC15_Subset() {
 	} else {
 		hasSel = [3]bool{verif.Choose("sel_k1", 2) == 1, verif.Choose("sel_k2", 2) == 1, verif.Choose("sel_k1k2", 2) == 1}
 		longFirst = verif.Choose("long_selector_first", 2) == 1
+		repeatKey = verif.Choose("selector_repeats_key", 2) == 1
+	}
+	twoKeys := []string{"k2", "k1"}
+	if repeatKey {
+		twoKeys = []string{"k2", "k1", "k2"}
 	}
 	if longFirst && hasSel[2] {
-		sel = append(sel, []string{"k2", "k1"})
+		sel = append(sel, twoKeys)
 	}
 	if hasSel[0] {
 		sel = append(sel, []string{"k1"})
@@ -135,7 +145,7 @@ func VerifC15_Subset() {
 		sel = append(sel, []string{"k2"})
 	}
 	if hasSel[2] && !longFirst {
-		sel = append(sel, []string{"k2", "k1"})
+		sel = append(sel, twoKeys)
 	}
 	policy := verif.Choose("fallback", 3) // 0 none, 1 any, 2 default subset
 	dv := verif.Str("default_v1", 1)
